@@ -95,7 +95,7 @@ def flatten(it, st, v, prefix, out, depth=0):
 def run(ctx):
     prog = ctx.prog
     ce = ConstEval(prog)
-    ctx.clauses_decided = ["R1 reader units", "R2 writer units are the inverse", "R3 the ten constants"]
+    ctx.clauses_decided = ["R1 reader units", "R2 writer units are the inverse", "R3 the ten constants", "R4 VASP coordinate-mode switch", "R5 axis-wise scaling of cell / grid vectors (symbolic evaluation)"]
     ctx.clauses_declined = ["same system in two formats loads to the same numbers (numerical)", "CODATA consistency beyond the ten constants"]
     ctor, allattrs = iodata_attr_names(prog)
 
@@ -286,3 +286,84 @@ def run(ctx):
                 ctx.violate("R2", f"{short} writes `{attr}` multiplied by `{got}`, the format prescribes `{exp}`", f, f.node, construct=f"writer {attr}: {got} (expected {exp})")
     ctx.extra["writer_unit_sites"] = nw
     ctx.floor("R2", nw, 9, "writer unit sites")
+    check_vasp_mode_switch(ctx)
+    ctx.rule("R5", "cell vectors and grid step vectors are scaled along the right axis", "each cell vector is multiplied by the point count of another axis: the loaded cell differs from the same system in another format")
+    from .indexmaps import check_index_maps
+
+    check_index_maps(ctx, "R5", ["cube_cellvecs", "vasp_axes"])
+    ctx.floor("R5", ctx.rules["R5"]["obligations"], 2, "scaled-vector sites")
+
+
+# VASP manual, POSCAR: "the seventh line switches to selective dynamics (only the first character is relevant and must be
+# S or s) ... the next line: only the first character is significant and the only key characters recognized are
+# C, c, K or k for switching to the Cartesian mode" -- anything else means direct (fractional) coordinates.
+VASP_CARTESIAN_KEYS = "CcKk"
+
+
+def check_vasp_mode_switch(ctx):
+    """R4: which unit conversion a VASP file gets is decided by the documented key characters.
+
+    The statements of the header reader that compute the Cartesian/direct switch are evaluated over the finite domain
+    of first characters (letters and digits), with and without a selective-dynamics line in front.
+    """
+    import string
+
+    from ..consteval import ConstEval, LineFeed, NotConstant, _Env, feed_next
+
+    prog = ctx.prog
+    ctx.rule("R4", "VASP files: Cartesian (angstrom) vs direct (fractional) coordinates are selected by the documented key characters", "a `Kartesian` (or `cart`, `Direct`) file is converted with the wrong formula: coordinates are off by the cell matrix")
+    f = prog.func("iodata.formats.chgcar._load_vasp_header")
+    lit = f.posparams[0]
+    # the switch: `if <name>:` with an angstrom product on one side and a cell-vector product on the other
+    sw = None
+    for n in f.own_nodes():
+        if isinstance(n, ast.If) and isinstance(n.test, ast.Name) and n.orelse:
+            tb = " ".join(src_of(x) for x in n.body)
+            eb = " ".join(src_of(x) for x in n.orelse)
+            if "angstrom" in tb and "cellvecs" in eb:
+                sw = (n, n.test.id, True)
+            elif "angstrom" in eb and "cellvecs" in tb:
+                sw = (n, n.test.id, False)
+    if sw is None:
+        raise AnalysisError("chgcar._load_vasp_header: cannot find the Cartesian/direct switch")
+    node, var, cart_when_true = sw
+    body = f.body
+    idx = [i for i, st in enumerate(body) if isinstance(st, ast.Assign) and any(isinstance(t, ast.Name) and t.id == var for t in st.targets)]
+    if len(idx) != 1:
+        raise AnalysisError(f"chgcar._load_vasp_header: `{var}` is not assigned exactly once at the top level")
+    iend = idx[0]
+    used = {x.id for x in ast.walk(body[iend].value) if isinstance(x, ast.Name)}
+    istart = iend
+    while istart > 0:
+        st = body[istart - 1]
+        names = {x.id for x in ast.walk(st) if isinstance(x, ast.Name)}
+        stores = {x.id for x in ast.walk(st) if isinstance(x, ast.Name) and isinstance(x.ctx, ast.Store)}
+        if stores and stores <= used and names <= used | {lit, "next"}:
+            istart -= 1
+        else:
+            break
+    block = body[istart : iend + 1]
+    if istart == iend:
+        raise AnalysisError("chgcar._load_vasp_header: the line feeding the coordinate-mode switch is not read just before it")
+    ce = ConstEval(prog)
+    ce.externals["<feed>.next"] = feed_next
+    chars = [c for c in string.ascii_letters + string.digits if c not in "Ss"]
+    bad = []
+    ncase = 0
+    for c in chars:
+        for pre in ([], ["Selective dynamics"], ["s"]):
+            feed = LineFeed(pre + [c + "artesian coordinates", "0.0 0.0 0.0"])
+            env = _Env(ce, f.module, f, {lit: feed, "next": feed_next})
+            try:
+                env.run(block)
+            except NotConstant as exc:
+                raise AnalysisError(f"VASP mode-switch code is outside the constant-evaluation whitelist: {exc}") from exc
+            got = bool(env.local[var]) == cart_when_true
+            ncase += 1
+            if got != (c in VASP_CARTESIAN_KEYS) or feed.pos != len(pre) + 1:
+                bad.append((c, pre, got, feed.pos))
+    if bad:
+        c, pre, got, pos = bad[0]
+        ctx.violate("R4", f"a coordinate-mode line starting with `{c}`" + (f" after a `{pre[0]}` line" if pre else "") + f" is read as {'Cartesian' if got else 'direct'} (consumed {pos} line(s)); VASP treats exactly the first characters C, c, K, k as Cartesian ({len(bad)} of {ncase} cases differ)", f, body[iend], construct=f"vasp mode `{c}` -> {'cartesian' if got else 'direct'}")
+    else:
+        ctx.ok("R4", f"{ncase} cases (first character of the mode line x optional selective-dynamics line): Cartesian iff the line starts with one of `{VASP_CARTESIAN_KEYS}`", f"{f.module.relpath}:{body[iend].lineno}")
